@@ -81,7 +81,10 @@ PREFIXES = {
                        {"kind": "call", "m": "apply", "args": [{"$path": "ctlfuncs.work"}], "kwargs": {"num": 2, "group_name": "g1"}})],
                  # a task that has failed: flush / gather-and-close then raise, and the reply must be that exception's str()
                  [("apply ctlfuncs.fail --group-name g1",
-                   {"kind": "call", "m": "apply", "args": [{"$path": "ctlfuncs.fail"}], "kwargs": {"group_name": "g1"}})]],
+                   {"kind": "call", "m": "apply", "args": [{"$path": "ctlfuncs.fail"}], "kwargs": {"group_name": "g1"}})],
+                 # ... also when that str() ends in a newline of its own
+                 [("apply ctlfuncs.failnl --group-name g1",
+                   {"kind": "call", "m": "apply", "args": [{"$path": "ctlfuncs.failnl"}], "kwargs": {"group_name": "g1"}})]],
     "SubPool": [[]],
     "SimpleTaskPool": [[], [("start 2", {"kind": "call", "m": "start", "args": [2]})]],
 }
